@@ -42,6 +42,13 @@ def cases(tier):
                         for sl in (STEPLISTS if not q else ('vary3', 'close3', 'tiny_fast')):
                             for h in ((0.1, 0.01) if not q else (0.1,)):
                                 yield {'kind': 'schemes', 'dims': list(dims), 'ro': ro, 'fam': fam, 'rx': rx, 'steps': sl, 'h': h}
+    # mixed dtypes: complex operator (complex entries only from its second core on) with real states and guesses ('cop'),
+    # real operator with complex states ('cx')
+    for d in (1, 2, 3):
+        for dims in itertools.product([2, 3], repeat=d):
+            for fam in ('cop', 'cx'):
+                for rx in admissible_ranks(list(dims)):
+                    yield {'kind': 'schemes', 'dims': list(dims), 'ro': min(2, d), 'fam': fam, 'rx': rx, 'steps': 'vary3', 'h': 0.1}
     # state spaces with a size-1 mode among larger ones (every normalisation, Markov and generic operators)
     for dims in ([1, 3], [3, 1], [2, 1, 3], [1, 3, 2], [2, 3, 1]):
         for ro in (1, 2):
@@ -71,7 +78,7 @@ def make_op(rng, dims, ro, fam):
         G = G - np.diag(G.sum(axis=0))
         G = G / np.linalg.norm(G, 2)
         return TT(G.reshape(dims + dims))
-    op = tt_from(rand_cores(rng, dims, dims, [1] + [ro] * (d - 1) + [1], fam == 'complex'))
+    op = tt_from(rand_cores(rng, dims, dims, [1] + [ro] * (d - 1) + [1], {'complex': True, 'cop': 'tail' if d > 1 else True}.get(fam, False)))
     return (1.0 / np.linalg.norm(mat(op), 2)) * op
 
 
@@ -159,7 +166,7 @@ def run_schemes(case, r, rng):
         op = 1e8 * op
         h = steps[0]            # HOD (constant step) then runs with h*A of the usual size as well
     A = mat(op)
-    x0t = tt_from(rand_cores(rng, dims, [1] * d, rx, fam == 'complex', 'nonneg' if fam == 'markov' else 'gauss'))
+    x0t = tt_from(rand_cores(rng, dims, [1] * d, rx, fam in ('complex', 'cx'), 'nonneg' if fam == 'markov' else 'gauss'))
     x0 = vec(x0t)
     I = np.eye(n)
     sO, sX = snap(op), snap(x0t)
@@ -186,7 +193,7 @@ def run_schemes(case, r, rng):
             wt.append(normalise(np.linalg.solve(I - 0.5 * hk * A, (I + 0.5 * hk * A) @ wt[-1]), nz))
         for tsolver in (('als', 'mals') if d >= 2 else ('als',)):
             for msolver in ('solve', 'lu'):
-                guess = tt_from(rand_cores(rng, dims, [1] * d, max_ranks(dims), fam == 'complex'))
+                guess = tt_from(rand_cores(rng, dims, [1] * d, max_ranks(dims), fam in ('complex', 'cx')))
                 sG = snap(guess)
                 kw = dict(tt_solver=tsolver, micro_solver=msolver, normalize=nz, progress=False, threshold=1e-14, max_rank=np.inf)
                 with r.op('implicit_euler%s:call' % o1):
@@ -212,7 +219,7 @@ def run_schemes(case, r, rng):
             for use_prev in (False, True):
                 for use_op in (False, True):
                     if use_prev:
-                        pt = tt_from(rand_cores(rng, dims, [1] * d, rx, fam == 'complex', 'nonneg' if fam == 'markov' else 'gauss'))
+                        pt = tt_from(rand_cores(rng, dims, [1] * d, rx, fam in ('complex', 'cx'), 'nonneg' if fam == 'markov' else 'gauss'))
                         sP = snap(pt)
                         prev = vec(pt)
                     else:
@@ -237,7 +244,7 @@ def run_schemes(case, r, rng):
                     if use_op:
                         r.true('hod:op_hod-unchanged', unchanged(kw['op_hod'], sH), 'op_hod modified')
     # ---- error estimators on arbitrary lists
-    pool = [x0t] + [tt_from(rand_cores(rng, dims, [1] * d, rr, fam == 'complex')) for rr in (rx, [1] * (d + 1))]
+    pool = [x0t] + [tt_from(rand_cores(rng, dims, [1] * d, rr, fam in ('complex', 'cx'))) for rr in (rx, [1] * (d + 1))]
     pv = [vec(p) for p in pool]
     for idx in list(itertools.permutations(range(3), 2)) + list(itertools.permutations(range(3), 3)):
         lst = [pool[i] for i in idx]; lv = [pv[i] for i in idx]
